@@ -5,6 +5,57 @@ import tables
 import decoder_rules as DR
 
 
+def check_no_silent_drop(chk, rule, prog, eff):
+    """every path through every builder callback wired in cbor_load (and _cbor_builder_append) ends in a hand-off of the
+    item or raises an error flag: a decoded head never vanishes (else the enclosing container would take what FOLLOWS)"""
+    f = prog.fn("cbor_load")
+    cf_off = prog.field_offset("_cbor_decoder_context", "creation_failed")
+    se_off = prog.field_offset("_cbor_decoder_context", "syntax_error")
+    root_off = prog.field_offset("_cbor_decoder_context", "root")
+    g = prog.global_for(f, "cbor_load.callbacks")
+    if g is None:
+        raise AnalysisBroken("cbor_load.callbacks not found")
+    builders = sorted({el.name for el in g["init_val"].elems if hasattr(el, "name")})
+    chk.floor(rule, "builder callbacks", len(builders), 24)
+    nb = 0
+    for bn in builders + ["_cbor_builder_append"]:
+        bf = prog.fn(bn)
+        bwhere = "%s:%d" % (bf.file, bf.line)
+        for k, pa in enumerate(P.Executor(prog, eff).run(bn)):
+            cf = se = False
+            handoff = []
+            for e in pa.events:
+                if e.kind == "store":
+                    b_, off = P.ptr_key(e.args[0])
+                    if e.extra == "i8" and e.args[1] == ("c", 1):
+                        if off == cf_off:
+                            cf = True
+                        elif off == se_off:
+                            se = True
+                    if off == root_off and bn == "_cbor_builder_append" and e.args[1] == ("arg", 0):
+                        handoff.append("root")
+                    if e.extra == "i8" and off == cf_off and isinstance(e.args[1], tuple) and e.args[1][0] == "cast":
+                        # ctx->creation_failed = !_cbor_map_add_value(..): value-dependent flag
+                        handoff.append("flag-from-result")
+                elif e.kind == "call" and e.ckind == "lib":
+                    if e.callee == "_cbor_builder_append":
+                        handoff.append("append")
+                    elif e.callee == "_cbor_stack_push" and pa.st.known_nonnull(e.res):
+                        handoff.append("push")
+                    elif e.callee in ("cbor_bytestring_add_chunk", "cbor_string_add_chunk", "cbor_array_push", "_cbor_map_add_key",
+                                      "_cbor_map_add_value", "cbor_tag_set_item"):
+                        r = e.res
+                        if e.callee == "cbor_tag_set_item" or pa.st.truth.get(r) is True or pa.st.truth.get(("cast", "trunc", "i1", r)) is True \
+                                or _truthy(pa.st, r):
+                            handoff.append(e.callee)
+            ok = cf or se or bool(handoff)
+            nb += 1
+            chk.ob(rule, "%s path %d" % (bn, k), ok, bwhere, fn=bn, key="%s:%d" % (bn, k),
+                   detail="" if ok else "the item is neither handed off nor is an error flag raised", path=pa.block_lines() if not ok else None)
+    chk.floor(rule, "builder paths", nb, 50)
+    return builders
+
+
 def run(ctx, chk):
     prog = ctx.prog()
     eff = ctx.effects(prog)
@@ -185,47 +236,7 @@ def run(ctx, chk):
     chk.floor("C05.reserved", "reserved bytes", nres, 30)
 
     # builders: no silent drop
-    g = prog.global_for(f, "cbor_load.callbacks")
-    if g is None:
-        raise AnalysisBroken("cbor_load.callbacks not found")
-    builders = sorted({el.name for el in g["init_val"].elems if hasattr(el, "name")})
-    chk.floor("C05.no-silent-drop", "builder callbacks", len(builders), 24)
-    nb = 0
-    for bn in builders + ["_cbor_builder_append"]:
-        bf = prog.fn(bn)
-        bwhere = "%s:%d" % (bf.file, bf.line)
-        for k, pa in enumerate(P.Executor(prog, eff).run(bn)):
-            cf = se = False
-            handoff = []
-            for e in pa.events:
-                if e.kind == "store":
-                    b_, off = P.ptr_key(e.args[0])
-                    if e.extra == "i8" and e.args[1] == ("c", 1):
-                        if off == cf_off:
-                            cf = True
-                        elif off == se_off:
-                            se = True
-                    if off == root_off and bn == "_cbor_builder_append" and e.args[1] == ("arg", 0):
-                        handoff.append("root")
-                    if e.extra == "i8" and off == cf_off and isinstance(e.args[1], tuple) and e.args[1][0] == "cast":
-                        # ctx->creation_failed = !_cbor_map_add_value(..): value-dependent flag
-                        handoff.append("flag-from-result")
-                elif e.kind == "call" and e.ckind == "lib":
-                    if e.callee == "_cbor_builder_append":
-                        handoff.append("append")
-                    elif e.callee == "_cbor_stack_push" and pa.st.known_nonnull(e.res):
-                        handoff.append("push")
-                    elif e.callee in ("cbor_bytestring_add_chunk", "cbor_string_add_chunk", "cbor_array_push", "_cbor_map_add_key",
-                                      "_cbor_map_add_value", "cbor_tag_set_item"):
-                        r = e.res
-                        if e.callee == "cbor_tag_set_item" or pa.st.truth.get(r) is True or pa.st.truth.get(("cast", "trunc", "i1", r)) is True \
-                                or _truthy(pa.st, r):
-                            handoff.append(e.callee)
-            ok = cf or se or bool(handoff)
-            nb += 1
-            chk.ob("C05.no-silent-drop", "%s path %d" % (bn, k), ok, bwhere, fn=bn, key="%s:%d" % (bn, k),
-                   detail="" if ok else "the item is neither handed off nor is an error flag raised", path=pa.block_lines() if not ok else None)
-    chk.floor("C05.no-silent-drop", "builder paths", nb, 50)
+    builders = check_no_silent_drop(chk, "C05.no-silent-drop", prog, eff)
     # truncation is reported as NEDATA, without wrapping
     n_ = DR.per_byte(chk, "C05", prog, eff, {"nedata", "nedata-wrap", "claim"}, by_byte=by_byte)
     chk.floor("C05.nedata", "per-byte truncation obligations", n_, 300)
